@@ -38,7 +38,8 @@ def run_op(cfg: Dict[str, Any]) -> Dict[str, Any]:
     w, loop, mode = cfg['w'], cfg['loop'], cfg['mode']
     nsegs = cfg.get('nsegs', 2)
     signals, io_fail, alloc_fail = cfg.get('signals', False), cfg.get('io_fail', False), cfg.get('alloc_fail', False)
-    tag = f"native/{loop}/{mode}/w{w}/ipbit{cfg['off']}" + ('/signals' if signals else '') + ('/io-fail' if io_fail else '') + ('/alloc-fail' if alloc_fail else '')
+    tag = (f"native/{loop}/{mode}/w{w}/ipbit{cfg['off']}" + (f"/ring{cfg['ring']}" if cfg.get('ring') else '') +
+           (f"/page{cfg['op_page']}" if 'op_page' in cfg else '') + ('/signals' if signals else '')) + ('/io-fail' if io_fail else '') + ('/alloc-fail' if alloc_fail else '')
     W = 2 * 64 + 16 if w == 64 else 80
     E = Engine(W, timeout_ms=cfg.get('timeout_ms', 240_000), max_paths=cfg.get('max_paths', 20000))
     E.fast_ms = cfg.get('fast_ms', 4000)
@@ -50,54 +51,86 @@ def run_op(cfg: Dict[str, Any]) -> Dict[str, Any]:
         M = Machine(module, E)
         world = env.World(M, n_inputs=1, signals=signals, io_fail=io_fail, alloc_fail=alloc_fail, env={})
         ns = env.NativeState(M, w, nsegs, mode)
-        # the ip is (word part, bit offset); the bit offset is enumerated by the solver so that unaligned reads shift by constants
+        ns.install_get_page(world)
+        M.stubs['@spec_record'] = lambda shadow, m_, ip_, jw_: 0      # measurement bookkeeping only (hash table of visited ips)
         ww_ = w.bit_length() - 1
         OFF = cfg['off']
-        IPW = z3.BitVec('IP_WORD', w - ww_)
+        if mode == 'flat' or w <= 16:
+            IPW = z3.BitVec('IP_WORD', w - ww_)
+            ipw_term = IPW
+        else:
+            # paged / hybrid at w >= 32: the op's page index is a configuration, its offset inside the page is symbolic
+            IPW = z3.BitVec('IP_WORD', env.PAGE_BITS)
+            ipw_term = z3.Concat(z3.BitVecVal(cfg.get('op_page', 0), w - ww_ - env.PAGE_BITS), IPW)
         E.inputs.setdefault('IP_WORD', IPW)
-        IP = z3.Concat(IPW, z3.BitVecVal(OFF, ww_))
+        IP = z3.Concat(ipw_term, z3.BitVecVal(OFF, ww_))
         if w < 64:
             IP = z3.ZeroExt(64 - w, IP)
+        elif mode == 'flat' or w <= 16:
+            # the op at the very top of the 64-bit address space (ip + w wraps in uint64_t): its own case
+            if E.branch(IPW == (1 << (w - ww_)) - 1):
+                E.witness('native:ip-at-top-of-address-space', True)
         OPS = z3.BitVec('OPS', 64)
         IL = z3.BitVec('INNER_LEFT', 64)
-        for n_, c_ in (('OPS', OPS), ('INNER_LEFT', IL)):
+        RW = z3.BitVec('RING_WRITES', 64)
+        for n_, c_ in (('OPS', OPS), ('INNER_LEFT', IL), ('RING_WRITES', RW)):
             E.inputs.setdefault(n_, c_)
-        pre = [z3.ULE(OPS, 1 << 62), z3.UGE(IL, 1), z3.ULE(IL, SIGNAL_CHECK_MASK + 1)]
+        pre = [z3.ULE(OPS, 1 << 62), z3.UGE(IL, 1), z3.ULE(IL, SIGNAL_CHECK_MASK + 1), z3.ULE(RW, 1 << 62)]
         for c_ in pre:
             E._assume(c_)
         E._refresh_model()
         ops_out = M.alloc(8, 'stack', 'ops_out')
         paused = M.alloc(8, 'stack', 'paused_out')
+        rw_out = M.alloc(8, 'stack', 'ring_writes_out')
         rb, wb, eof = (M.ptr(world.new_pyobj(n_, 5)) for n_ in ('read_bit', 'write_bit', 'eof_type'))
-        state = {'havocked': False}
+        L = cfg.get('ring', 0)
+        ring = None
+        if L:
+            RING = z3.Array('RING', z3.BitVecSort(64), z3.BitVecSort(64))
+            ring = M.alloc(8 * L, 'heap', 'last_ops_ring', base=lambda i: z3.Select(RING, i))
+        state = {'header': None}
 
         def after_phis(fr: Frame, block: str, prev: Optional[str]) -> None:
             if fr is not M.frames[0]:
                 return
-            if block.startswith('do.body') and not state['havocked']:
-                state['havocked'] = True
-                for r in list(fr.regs):
-                    base = r.lstrip('%').split('.')[0]
-                    if fr.visits.get(block) == 1 and r in phi_names(fr, block):
+            names = phi_names(fr, block)
+            bases = {r: r.lstrip('%').split('.')[0] for r in names}
+            if state['header'] is None:
+                if 'ip' in bases.values() and (block.startswith('do.body') or 'inner_left' not in all_phi_bases(fr)):
+                    state['header'] = block
+                    for r, base in bases.items():
                         if base == 'ip':
                             fr.regs[r] = IP
                         elif base == 'ops':
                             fr.regs[r] = OPS
                         elif base == 'inner_left':
                             fr.regs[r] = IL
+                        elif base == 'ring_writes':
+                            fr.regs[r] = RW
+                        elif base == 'op_flat_jump':
+                            # whatever the previous op left: NULL, or a pointer to some word of the flat array
+                            if ns.flat is not None and E.branch(z3.Bool('STALE_FLAT_JUMP_PTR')):
+                                fr.regs[r] = M.gep(ir.I64, M.ptr(ns.flat), [(ir.I64, z3.BitVec('STALE_INDEX', 64))])
+                            else:
+                                fr.regs[r] = 0
+                        elif base in ('op_slot', 'op_offset'):
+                            fr.regs[r] = z3.BitVec('STALE_' + base.upper(), 64)
                 return
-            if state['havocked'] and fr.visits.get(block, 0) >= (2 if block.startswith('do.body') or block.startswith('for.cond') else 99):
-                vals = {r.lstrip('%').split('.')[0]: fr.regs[r] for r in phi_names(fr, block)}
-                raise Cut('header', vals)
+            if fr.visits.get(block, 0) >= 2 and (block == state['header'] or block.startswith('for.cond')):
+                raise Cut('header', {base: fr.regs[r] for r, base in bases.items()})
 
         M.after_phis = after_phis          # type: ignore[attr-defined]
-        M.on_block = lambda fr, b, p: None
+        M.on_block = lambda fr, b_, p_: None
         outcome: Dict[str, Any] = {}
+        args = [M.ptr(ns.self_obj), rb, wb, eof, IP, M.ptr(ops_out), M.ptr(paused)]
+        if loop == 'run_generic_loop':
+            args += [M.ptr(ring) if ring is not None else 0, L, M.ptr(rw_out)]
         try:
-            r = M.call('@' + loop, [M.ptr(ns.self_obj), rb, wb, eof, IP, M.ptr(ops_out), M.ptr(paused)])
-            outcome = {'kind': 'returned', 'cause': r if is_c(r) else simp(r), 'ops': ops_out.read(0)}
+            r = M.call('@' + loop, args)
+            outcome = {'kind': 'returned', 'cause': r if is_c(r) else simp(r), 'ops': ops_out.read(0),
+                       'ring_writes': rw_out.read(0) if loop == 'run_generic_loop' else None}
         except Cut as c:
-            outcome = {'kind': 'cut', 'ip': c.data.get('ip'), 'ops': c.data.get('ops')}
+            outcome = {'kind': 'cut', 'ip': c.data.get('ip'), 'ops': c.data.get('ops'), 'ring_writes': c.data.get('ring_writes')}
         except MemoryViolation as mv:
             mem_viol.append({'what': mv.what, 'model': E.model_values(mv.model) if mv.model is not None else
                              (E.model_values(E.last_model()) if E._check() == 'sat' else {}), 'tag': tag})
@@ -133,7 +166,7 @@ def run_op(cfg: Dict[str, Any]) -> Dict[str, Any]:
             add(bv(ns.get_field(28), 64) == ops_expected, 'last_run_op_count')
             if st == pyspec.MEMERR and status == pyspec.MEMERR:
                 add(z3.ZeroExt(W - 64, bv(ns.get_field(23), 64)) == to_z3(extra), 'fault address')
-            add(z3.BoolVal(is_c(ns.get_field(22, 4)) and ns.get_field(22, 4) == 0), 'mem_error flag cleared on exit')
+            add(bv(ns.get_field(22, 4), 32) == 0, 'mem_error flag cleared on exit')
         if not python_error:
             add(z3.BoolVal(len(world.out) == len(sio.out)), 'number of output bits')
             for i_, (a, b) in enumerate(zip(world.out, sio.out)):
@@ -145,12 +178,18 @@ def run_op(cfg: Dict[str, Any]) -> Dict[str, Any]:
             # valid cells; by construction of the two memories this implies (for every index k)
             #     flat'[k] == (valid(k) ? word'(k) : fill)
             # i.e. the flat array again represents the reference memory (same argument as unfolding both store chains).
-            if ns.flat is not None:
-                cst, sst = list(ns.flat.stores), list(smem.stores)
-                add(z3.BoolVal(len(cst) == len(sst)), f'the op stores to memory as often as the reference ({len(cst)} vs {len(sst)})')
-                for n_, ((ci, cv), (si, sv)) in enumerate(zip(cst, sst)):
-                    add(z3.And(bv(ci, 64) == si, ns.valid(bv(ci, 64)), z3.ULT(bv(ci, 64), ns.FC)), f'memory store {n_} hits the same (valid) word')
-                    add(bv(cv, 64) == (z3.ZeroExt(64 - w, sv) if w < 64 else sv), f'memory store {n_} writes the same word value (and nothing above bit w)')
+            cst, sst = list(ns.prog_stores), list(smem.stores)
+            add(z3.BoolVal(len(cst) == len(sst)), f'the op stores to memory as often as the reference ({len(cst)} vs {len(sst)})')
+            for n_, ((ci, cv), (si, sv)) in enumerate(zip(cst, sst)):
+                add(z3.And(bv(ci, 64) == si, ns.valid(bv(ci, 64))), f'memory store {n_} hits the same (valid) word')
+                add(bv(cv, 64) == (z3.ZeroExt(64 - w, sv) if w < 64 else sv), f'memory store {n_} writes the same word value (and nothing above bit w)')
+            if ring is not None:
+                kq = z3.BitVec('kq', 64)
+                slot_ = z3.URem(RW, z3.BitVecVal(L, 64))
+                add(z3.Implies(z3.ULT(kq, L), bv(ring.read_term(kq), 64) == z3.If(kq == slot_, IP, z3.Select(RING, kq))),
+                    'last-ops ring: the op address is recorded at ring_writes % L, the other entries are untouched')
+                if outcome.get('ring_writes') is not None:
+                    add(bv(outcome['ring_writes'], 64) == RW + 1, 'ring_writes advanced by one')
         # reference counts: every object the callbacks returned is released exactly once
         leaked = [o.name for o in world.pyobjs if o.name in ('write_result', 'read_result') and o.id not in world.dealloc]
         add(z3.BoolVal(not leaked), f'callback results are released ({leaked})')
@@ -220,6 +259,10 @@ def phi_names(fr: Frame, block: str) -> List[str]:
     return [i.dest for i in fr.fn.blocks[block].instrs if i.op == 'phi']
 
 
+def all_phi_bases(fr: Frame) -> set:
+    return {i.dest.lstrip('%').split('.')[0] for b in fr.fn.blocks.values() for i in b.instrs if i.op == 'phi'}
+
+
 def model_image(m: Any, ns: Any, smem: Any, IP: Any, OPS: Any, IL: Any, world: Any, w: int) -> Dict[str, Any]:
     """concrete image for the replay: segments, the words the op touched, ip"""
     ev = lambda t: m.eval(t, model_completion=True).as_long()  # noqa: E731
@@ -243,28 +286,109 @@ FLAT_CLASSES = ['unaligned-ip', 'halt-looping', 'halt-null-ip', 'memory-error', 
                 'flip-beyond-flat-window', 'op-straddles-flat-window', 'self-jump-but-self-flip']
 
 
-def run(report: Report, tier: str, only: Optional[str] = None) -> None:
+def configs_for(prop: str, tier: str) -> List[Dict[str, Any]]:
+    """the (loop clone, storage mode, width, ip bit offset, ring, failure model) jobs of each property's native part.
+    valid combinations only: run_flat_loop <=> flat array present and no ring; run_generic_loop without ring <=> paged."""
+    quick = tier == 'quick'
+    cfgs: List[Dict[str, Any]] = []
+
+    def offs(w: int, few: bool = False) -> List[int]:
+        if few:
+            return [0, 1]
+        return sorted({0, 1, w // 2, w - 1}) if quick else list(range(w))
+    if prop == 'C01':
+        for w in (8, 16, 32, 64):
+            for off in offs(w):
+                cfgs.append({'w': w, 'off': off, 'loop': 'run_flat_loop', 'mode': 'flat'})
+        for w in (8, 16):
+            for off in offs(w, quick):
+                cfgs.append({'w': w, 'off': off, 'loop': 'run_generic_loop', 'mode': 'paged'})
+        for w in (32, 64):
+            # unaligned paged ops at w=64: the solver does not finish (outside the claim); at w=32 they take ~11 min (thorough)
+            for off in ((0,) if quick or w == 64 else (0, 1)):
+                cfgs.append({'w': w, 'off': off, 'loop': 'run_generic_loop', 'mode': 'paged', 'op_page': 1})
+    elif prop == 'C07':
+        cfgs.append({'w': 16, 'off': 0, 'loop': 'run_flat_loop', 'mode': 'hybrid'})
+        cfgs.append({'w': 32, 'off': 0, 'loop': 'run_generic_loop', 'mode': 'paged', 'op_page': 17})
+        cfgs += [{'w': 16, 'off': 0, 'loop': 'run_generic_loop', 'mode': 'flat', 'ring': 3},
+                 {'w': 8, 'off': 1, 'loop': 'run_generic_loop', 'mode': 'flat', 'ring': 1},
+                 {'w': 16, 'off': 1, 'loop': 'run_generic_loop', 'mode': 'hybrid', 'ring': 1},
+                 {'w': 32, 'off': 0, 'loop': 'run_generic_loop', 'mode': 'paged', 'ring': 2, 'op_page': 1},
+                 {'w': 16, 'off': 0, 'loop': 'run_measured_loop', 'mode': 'flat'},
+                 {'w': 16, 'off': 0, 'loop': 'run_measured_loop', 'mode': 'paged'},
+                 {'w': 16, 'off': 0, 'loop': 'run_measured_loop', 'mode': 'hybrid'}]
+        if not quick:
+            # the long poles (15-50 min each). unaligned ops at w=64 in hybrid / paged storage are outside the claim: the solver
+            # answers unknown on their obligations
+            cfgs += [{'w': 8, 'off': 1, 'loop': 'run_flat_loop', 'mode': 'hybrid'},
+                     {'w': 16, 'off': 1, 'loop': 'run_flat_loop', 'mode': 'hybrid'},
+                     {'w': 64, 'off': 0, 'loop': 'run_flat_loop', 'mode': 'hybrid', 'op_page': 0},
+                     {'w': 32, 'off': 1, 'loop': 'run_generic_loop', 'mode': 'paged', 'op_page': 17},
+                     {'w': 64, 'off': 0, 'loop': 'run_generic_loop', 'mode': 'paged', 'op_page': 17},
+                     {'w': 16, 'off': 1, 'loop': 'run_measured_loop', 'mode': 'paged'},
+                     {'w': 64, 'off': 0, 'loop': 'run_measured_loop', 'mode': 'hybrid', 'op_page': 0}]
+            for w in (8, 16, 32, 64):
+                for off in offs(w, True):
+                    cfgs.append({'w': w, 'off': off, 'loop': 'run_generic_loop', 'mode': 'flat', 'ring': 2})
+                    cfgs.append({'w': w, 'off': off, 'loop': 'run_measured_loop', 'mode': 'flat'})
+    elif prop == 'C11':
+        for w in (8, 64):
+            cfgs.append({'w': w, 'off': 1, 'loop': 'run_flat_loop', 'mode': 'flat', 'alloc_fail': True})
+        cfgs.append({'w': 8, 'off': 0, 'loop': 'run_generic_loop', 'mode': 'paged', 'alloc_fail': True})
+        cfgs.append({'w': 32, 'off': 0, 'loop': 'run_generic_loop', 'mode': 'paged', 'alloc_fail': True, 'op_page': 1})
+        cfgs.append({'w': 16, 'off': 0, 'loop': 'run_flat_loop', 'mode': 'hybrid', 'alloc_fail': True})
+        cfgs.append({'w': 16, 'off': 0, 'loop': 'run_generic_loop', 'mode': 'flat', 'ring': 2, 'alloc_fail': True})
+        if not quick:
+            cfgs.append({'w': 64, 'off': 0, 'loop': 'run_generic_loop', 'mode': 'paged', 'alloc_fail': True, 'op_page': 1})
+            cfgs.append({'w': 32, 'off': 0, 'loop': 'run_flat_loop', 'mode': 'hybrid', 'alloc_fail': True, 'op_page': 0})
+            cfgs.append({'w': 16, 'off': 0, 'loop': 'run_measured_loop', 'mode': 'flat', 'alloc_fail': True})
+    elif prop == 'C18':
+        for w in (8, 64):
+            cfgs.append({'w': w, 'off': 0, 'loop': 'run_flat_loop', 'mode': 'flat', 'signals': True, 'io_fail': True})
+        cfgs.append({'w': 8, 'off': 1, 'loop': 'run_generic_loop', 'mode': 'paged', 'signals': True, 'io_fail': True})
+        cfgs.append({'w': 32, 'off': 0, 'loop': 'run_generic_loop', 'mode': 'paged', 'signals': True, 'io_fail': True, 'op_page': 1})
+        cfgs.append({'w': 16, 'off': 0, 'loop': 'run_generic_loop', 'mode': 'flat', 'ring': 2, 'signals': True, 'io_fail': True})
+        cfgs.append({'w': 16, 'off': 0, 'loop': 'run_measured_loop', 'mode': 'flat', 'signals': True, 'io_fail': True})
+        if not quick:
+            cfgs.append({'w': 64, 'off': 0, 'loop': 'run_generic_loop', 'mode': 'paged', 'signals': True, 'io_fail': True, 'op_page': 1})
+            cfgs.append({'w': 16, 'off': 1, 'loop': 'run_flat_loop', 'mode': 'hybrid', 'signals': True, 'io_fail': True})
+    for c in cfgs:
+        c['prop'] = prop
+    return cfgs
+
+
+def cfg_tag(c: Dict[str, Any]) -> str:
+    return (f"native/{c['loop']}/{c['mode']}/w{c['w']}/ipbit{c['off']}" + (f"/ring{c['ring']}" if c.get('ring') else '') +
+            (f"/page{c['op_page']}" if 'op_page' in c else ''))
+
+
+def run(report: Report, tier: str, only: Optional[str] = None, prop: str = 'C01') -> None:
     from fjv.llsx import validate
     module = env.load_module()
-    for name in ('@run_flat_loop', '@mem_read_word', '@mem_flip_bit', '@mem_write_bit', '@mem_get_word_unaligned', '@flat_garbage_check',
-                 '@flat_is_garbage', '@flat_seg_contains', '@flat_garbage', '@mem_get_page', '@access_check', '@word_is_valid',
-                 '@page_compute_validity', '@mem_grow_slots', '@page_cache_fill'):
+    for name in ('@run_flat_loop', '@run_generic_loop', '@run_measured_loop', '@mem_read_word', '@mem_flip_bit', '@mem_write_bit',
+                 '@mem_get_word_unaligned', '@flat_garbage_check', '@flat_is_garbage', '@flat_seg_contains', '@flat_garbage',
+                 '@access_check', '@word_is_valid', '@page_compute_validity', '@page_cache_fill'):
         fn = module.functions[name]
         report.functions.append({'name': name.lstrip('@'), 'file': 'flipjump/interpreter/_fjcore.c (LLVM IR, clang-14 -O0 + mem2reg/instcombine/simplifycfg)',
                                  'ir_sha1': fn.text_hash, 'blocks': len(fn.blocks)})
     report.stub(*env.STUBS_TEXT)
-    report.bounds['native_engine'] = ('one op from the havocked loop header of run_flat_loop (5 width clones) on a symbolic flat Memory: 2 '
-                                      'symbolic disjoint segments, flat_count = end of the last one (<= 2^40), arbitrary word content, '
-                                      'arbitrary ip / op count / poll counter; pure-flat storage')
-    report.outside += ['compiler correctness between clang-14 IR and the shipped gcc build', 'the default: clone for unsupported widths']
+    report.stub('mem_get_page -> contract model: the page of an index is an already materialised page (aliasing decided by forking) or a '
+                'fresh one whose words represent (in-segment ? program word : arbitrary device junk) and whose fast valid range is '
+                'computed by the REAL page_compute_validity IR; the cache-hit test and page_cache_fill are the real code',
+                'spec_record (speculation hash table of the measured loop) -> no-op')
+    report.bounds['native_engine'] = (
+        'one op from the havocked loop header (ip word part, op count, poll counter, ring_writes and the stale per-op registers are '
+        'arbitrary) of run_flat_loop / run_generic_loop / run_measured_loop on a symbolic Memory: 2 symbolic disjoint sorted segments, '
+        'arbitrary word content; flat: flat_count = end of the last segment <= 2^22; hybrid: window edge inside a segment; paged: pages '
+        'materialised on demand (at w >= 32 the op\'s page index is a configuration, its offset in the page symbolic)')
+    report.bounds['native_ip_bit_offsets'] = 'quick: {0, 1, w/2, w-1} (or {0,1}); thorough: every bit offset 0..w-1 for the flat loop'
+    report.outside += ['compiler correctness between clang-14 IR and the shipped gcc build', 'the default: clone for unsupported widths',
+                       'segments_sorted == 0 (the lazy qsort on the first validity query)', 'the hash-table walk of mem_get_page '
+                       '(replaced by its contract)', 'more than 2 segments in the op-step harnesses', 'unaligned ops in paged mode at w=64 (solver does not finish; covered at w=32 paged and w=64 flat)']
     validate.validate_executor(report)
-    cfgs: List[Dict[str, Any]] = []
-    for w in (8, 16, 32, 64):
-        offs = sorted({0, 1, w // 2, w - 1}) if tier == 'quick' else list(range(w))
-        for off in offs:
-            cfgs.append({'w': w, 'off': off, 'loop': 'run_flat_loop', 'mode': 'flat'})
+    cfgs = configs_for(prop, tier)
     if only:
-        cfgs = [c for c in cfgs if only in f"native/{c['loop']}/{c['mode']}/w{c['w']}/ipbit{c['off']}"]
-    report.bounds['native_ip_bit_offsets'] = 'quick: {0, 1, w/2, w-1}; thorough: every bit offset 0..w-1 (the word part of ip is symbolic)'
-    report.require_witnesses(*[f'native:{c}' for c in FLAT_CLASSES])
+        cfgs = [c for c in cfgs if only in cfg_tag(c)]
+    if prop == 'C01':
+        report.require_witnesses(*[f'native:{c}' for c in FLAT_CLASSES])
     common.run_pool(run_op, cfgs, report)
